@@ -16,7 +16,7 @@ Hidden == << El("e1", "int", 0, 1), El("e2", "string", 0, 1), El("e3", "int", 0,
              El("e4", "string", 0, 1), El("e5", "decimal", 0, 1), El("e6", "string", 0, 1) >>
 Masks == (SUBSET (1..6)) \ {{}}
 \* two samples (the third mask is ignored) or three
-Slots == << Masks, Masks, BOOLEAN, Masks, {NONE, "urn:t"}, {1, 2, 3} >>
+Slots == << Masks, Masks, BOOLEAN, Masks, {NONE, "urn:t"}, {1, 2, 3, 4} >>
 NSlots == Len(Slots)
 Init == parts = <<>>
 Next == Len(parts) < NSlots /\ \E c \in Slots[Len(parts) + 1] : parts' = Append(parts, c)
